@@ -257,3 +257,10 @@ def rules(t):
     out.append(r)
     out.append(W3.session_immutable(t, "C05.h"))
     return out
+
+_rules_c05_w5 = rules
+def rules(t):
+    import rules.shared as shared
+    out = _rules_c05_w5(t)
+    shared.share(t, out, "C05.i", "a connect token is bound to the first address it is seen from on every path that answers it (also when the answer is ConnectionDenied): no reply leaves handle_connection_request before the token-reuse test", "C19", ("C19.h",))
+    return out
